@@ -32,6 +32,13 @@ fn diff_for(want: i32, pred: i32) -> i8 {
 /// Build a P picture from a field of macroblock specifications; the encoder side computes the
 /// differentials that realise wanted vectors, using the reference model's predictor.
 pub fn build_p(hdr: &Header, specs: &[Spec]) -> Pic {
+    build_p_q(hdr, specs, 0)
+}
+
+/// As `build_p`; macroblock `i` uses the type with a quantizer update (INTER+Q / INTER4V+Q) when
+/// bit `i % 64` of `qsel` is set. (No residual is coded, so the quantizer itself is immaterial,
+/// but the macroblock type - and with it the parsing of its vectors - is another one.)
+pub fn build_p_q(hdr: &Header, specs: &[Spec], qsel: u64) -> Pic {
     let (mbw, _) = hdr.mb_dims().unwrap();
     let mut done: Vec<Option<[(i32, i32); 4]>> = Vec::new();
     let mut mbs = Vec::new();
@@ -55,7 +62,10 @@ pub fn build_p(hdr: &Header, specs: &[Spec]) -> Pic {
                 done.push(None);
             }
             Spec::Want1(_) | Spec::Diff1(_) => {
-                mb = Mb::new(MbKind::Inter);
+                mb = Mb::new(if (qsel >> (i % 64)) & 1 == 1 { MbKind::InterQ } else { MbKind::Inter });
+                if mb.kind == MbKind::InterQ {
+                    mb.dquant = if i % 2 == 0 { 1 } else { -1 };
+                }
                 let p = predict_mv(&done, &cur, mbw, mx, my, 0);
                 let d = match s {
                     Spec::Want1(v) => (diff_for(v.0, p.0), diff_for(v.1, p.1)),
@@ -67,7 +77,10 @@ pub fn build_p(hdr: &Header, specs: &[Spec]) -> Pic {
                 done.push(Some([r; 4]));
             }
             Spec::Want4(_) | Spec::Diff4(_) => {
-                mb = Mb::new(MbKind::Inter4V);
+                mb = Mb::new(if (qsel >> (i % 64)) & 1 == 1 { MbKind::Inter4VQ } else { MbKind::Inter4V });
+                if mb.kind == MbKind::Inter4VQ {
+                    mb.dquant = if i % 2 == 0 { -1 } else { 1 };
+                }
                 for b in 0..4 {
                     let p = predict_mv(&done, &cur, mbw, mx, my, b);
                     let d = match s {
@@ -122,7 +135,31 @@ pub fn entropy_reference(mode: Mode, version: u8, size: Size, salt: u64) -> Pic 
 
 /// Decode reference + P and compare with the model. Returns the model's statistics.
 fn run_field(mode: Mode, version: u8, size: Size, specs: &[Spec]) -> Result<ModelStats, String> {
-    let refpic = entropy_reference(mode, version, size, 0);
+    run_field_form(mode, version, size, specs, &Form::default())
+}
+
+/// How the two pictures are written: header forms of the reference and the predicted picture
+/// (standard mode), UMV mode bit in the reference's header, and which macroblocks use the +Q types.
+#[derive(Clone, Copy, Debug)]
+pub struct Form {
+    pub ref_plus: PlusForm,
+    pub ref_umv: bool,
+    pub p_plus: PlusForm,
+    pub qsel: u64,
+}
+
+impl Default for Form {
+    fn default() -> Form {
+        Form { ref_plus: PlusForm::Baseline, ref_umv: false, p_plus: PlusForm::Baseline, qsel: 0 }
+    }
+}
+
+fn run_field_form(mode: Mode, version: u8, size: Size, specs: &[Spec], form: &Form) -> Result<ModelStats, String> {
+    let mut refpic = entropy_reference(mode, version, size, 0);
+    if mode == Mode::Standard {
+        refpic.hdr.plus = form.ref_plus;
+        refpic.hdr.umv = form.ref_umv;
+    }
     let mut st = H263State::new(options_scal(mode, specs.len() % 2 == 1 || version == 1));
     match decode_bytes(&mut st, &encode_pic(&refpic)) {
         Outcome::Ok => {}
@@ -133,28 +170,51 @@ fn run_field(mode: Mode, version: u8, size: Size, specs: &[Spec]) -> Result<Mode
     hdr.ptype = PicType::P;
     hdr.quant = 6;
     hdr.tr = 18;
-    let pic = build_p(&hdr, specs);
+    if mode == Mode::Standard {
+        // a header that restates nothing would inherit the reference's UMV mode
+        hdr.plus = if form.p_plus == PlusForm::Brief && refpic.hdr.umv_coded() { PlusForm::Full } else { form.p_plus };
+    }
+    let pic = build_p_q(&hdr, specs, form.qsel);
     let (model, _, _) = check_inter(&mut st, &pic, &reference)?;
     Ok(model.stats)
 }
 
 const SIZE_4X3: Size = Size::Custom8(64, 48);
 
+fn mbw_target(mbw: usize) -> usize {
+    mbw + 1
+}
+
 /// item = predictor (64 values) x component; inner = all 64 differentials.
 fn pred_diff_item(i: u64, acc: &mut Acc) {
     let comp_y = i % 2 == 1;
     let p = (i / 2) as i32 - 32;
-    for (mode, version) in [(Mode::Sorenson, 0u8), (Mode::Sorenson, 1)] {
+    const FORMS: [(PlusForm, bool, PlusForm); 5] = [
+        (PlusForm::Full, true, PlusForm::Baseline),
+        (PlusForm::Baseline, true, PlusForm::Baseline),
+        (PlusForm::Full, true, PlusForm::Full),
+        (PlusForm::Full, false, PlusForm::Brief),
+        (PlusForm::Baseline, false, PlusForm::Full),
+    ];
+    for (mode, version) in [(Mode::Sorenson, 0u8), (Mode::Sorenson, 1), (Mode::Standard, 0)] {
         for d in -32i32..=31 {
             // left neighbour and above neighbour both carry the predictor value, so the median is it
             let other = ((p * 7 + d * 3).rem_euclid(64)) - 32; // the other component: arbitrary but varying
             let pv = if comp_y { (other, p) } else { (p, other) };
-            let mut specs = vec![Spec::NotCoded; 12];
+            // Sorenson: 4x3 macroblocks, target (1,1); standard mode: sub-QCIF (8x6), target (1,1),
+            // header forms and the UMV bit of the reference's header vary with the differential
+            let (size, mbw, form) = if mode == Mode::Standard {
+                let f = FORMS[(d + p).rem_euclid(5) as usize];
+                (Size::Sqcif, 8usize, Form { ref_plus: f.0, ref_umv: f.1, p_plus: f.2, qsel: if d & 4 != 0 { 1 << (mbw_target(8) % 64) } else { 0 } })
+            } else {
+                (SIZE_4X3, 4usize, Form { qsel: if d & 1 != 0 { 1 << 5 } else { 0 }, ..Form::default() })
+            };
+            let mut specs = vec![Spec::NotCoded; if mode == Mode::Standard { 48 } else { 12 }];
             specs[1] = Spec::Want1(pv); // above (1,0)
-            specs[4] = Spec::Want1(pv); // left (0,1)
+            specs[mbw] = Spec::Want1(pv); // left (0,1)
             let od = ((d * 5 + p).rem_euclid(64) - 32) as i8;
-            specs[5] = Spec::Diff1(if comp_y { (od, d as i8) } else { (d as i8, od) }); // target (1,1)
-            match run_field(mode, version, SIZE_4X3, &specs) {
+            specs[mbw + 1] = Spec::Diff1(if comp_y { (od, d as i8) } else { (d as i8, od) }); // target (1,1)
+            match run_field_form(mode, version, size, &specs, &form) {
                 Err(m) => {
                     acc.fail(
                         json!({"kind":"params","suite":"pred_diff","item":i,"d":d}),
@@ -203,7 +263,9 @@ fn four_sum_item(i: u64, acc: &mut Acc) {
         let v: [(i32, i32); 4] = if comp_y { [(o[0], dec[0]), (o[1], dec[1]), (o[2], dec[2]), (o[3], dec[3])] } else { [(dec[0], o[0]), (dec[1], o[1]), (dec[2], o[2]), (dec[3], o[3])] };
         let mut specs = vec![Spec::NotCoded; 12];
         specs[5] = Spec::Want4(v);
-        match run_field(Mode::Sorenson, (i % 2) as u8, SIZE_4X3, &specs) {
+        // the first decomposition as INTER4V, the others as INTER4V+Q
+        let form = Form { qsel: if v == [(0, 0); 4] || dec == balanced { 0 } else { 1 << 5 }, ..Form::default() };
+        match run_field_form(Mode::Sorenson, (i % 2) as u8, SIZE_4X3, &specs, &form) {
             Err(m) => {
                 acc.fail(
                     json!({"kind":"params","suite":"four_sum","item":i}),
@@ -278,7 +340,9 @@ fn neighbour_item(i: u64, acc: &mut Acc) {
                     1 => Spec::Diff4([(1, 2), (-3, 4), (5, -6), (-7, -8)]),
                     _ => Spec::Diff4([(0, 0), (0, 0), (0, 0), (0, 0)]),
                 };
-                match run_field(Mode::Sorenson, 1, size, &specs) {
+                // +Q macroblock types: a position-dependent selection that changes with the permutation
+                let qsel = (0x9E37_79B9_7F4A_7C15u64.rotate_left((perm[0].0 + 32) as u32)) & if target == 2 { 0 } else { !0 };
+                match run_field_form(Mode::Sorenson, 1, size, &specs, &Form { qsel, ..Form::default() }) {
                     Err(m) => {
                         acc.fail(
                             json!({"kind":"params","suite":"neighbours","item":i}),
@@ -334,13 +398,33 @@ fn random_field_case(g: &mut Gen) -> Verdict {
             }
         });
     }
-    g.describe(|| json!({"mode": format!("{:?} v{}", mode, version), "size": format!("{:?}", size), "specs": format!("{:?}", &specs[..specs.len().min(12)])}));
-    match run_field(mode, version, size, &specs) {
+    let form = Form {
+        ref_plus: if g.chance(1, 3) { PlusForm::Full } else { PlusForm::Baseline },
+        ref_umv: g.chance(1, 3),
+        p_plus: *g.pick(&[PlusForm::Baseline, PlusForm::Baseline, PlusForm::Full, PlusForm::Brief]),
+        qsel: if g.chance(1, 2) { 0 } else { (g.word() as u64) << 32 | g.word() as u64 },
+    };
+    g.describe(|| json!({"mode": format!("{:?} v{}", mode, version), "size": format!("{:?}", size), "form": format!("{:?}", form), "specs": format!("{:?}", &specs[..specs.len().min(12)])}));
+    match run_field_form(mode, version, size, &specs, &form) {
         Err(m) => Verdict::fail(m),
         Ok(s) => {
-            let mut key = crate::bits::fnv64(format!("{:?}{:?}{}", specs, size, version).as_bytes());
+            let mut key = crate::bits::fnv64(format!("{:?}{:?}{}{:?}", specs, size, version, form).as_bytes());
             key ^= mode as u64;
-            Verdict::pass_l(s.nonzero_mv > 0, key, vec![if s.four_v > 0 { "has four-vector macroblocks" } else { "one-vector only" }])
+            let mut l: Labels = vec![if s.four_v > 0 { "has four-vector macroblocks" } else { "one-vector only" }];
+            if form.qsel != 0 {
+                l.push("macroblock types with quantizer update");
+            }
+            if mode == Mode::Standard {
+                l.push(match form.p_plus {
+                    PlusForm::Baseline => "standard: baseline PTYPE header",
+                    PlusForm::Full => "standard: PLUSPTYPE header restating the modes",
+                    PlusForm::Brief => "standard: PLUSPTYPE header restating nothing",
+                });
+                if form.ref_umv {
+                    l.push("standard: reference header had the UMV bit set");
+                }
+            }
+            Verdict::pass_l(s.nonzero_mv > 0, key, l)
         }
     }
 }
@@ -357,7 +441,7 @@ pub fn run(ctx: &Ctx) -> i32 {
         ctx,
         reports,
         Summary {
-            rule: "P pictures over a high-entropy intra reference (own DC and five AC coefficients in every block) with *constructed* vector fields: the harness encoder computes the differentials that realise wanted neighbour vectors. Enumerated completely: 64 predictors x 64 differentials per component (both Sorenson versions); every sum of four vectors -128..124 per component in three decompositions; every neighbour configuration - picture shapes 4x3, 1x3, 3x1, 1x1, 3x3(33x33) macroblocks x every target position x {inter, intra, not coded}^3 neighbours x six vector permutations (each neighbour in turn the median) x one-/four-vector neighbours x three target types. Oracle: C03 model, zero residual, exact equality of all three planes (the chroma planes decide the sixteenth-position rounding). Non-trivial = predictor and differential both non-zero / every sum / every configuration; plus tape-generated random vector fields in all three stream forms.",
+            rule: "P pictures over a high-entropy intra reference (own DC and five AC coefficients in every block) with *constructed* vector fields: the harness encoder computes the differentials that realise wanted neighbour vectors. Enumerated completely: 64 predictors x 64 differentials per component (both Sorenson versions, and standard mode with baseline / PLUSPTYPE / format-less headers after a reference whose header has the UMV mode bit set or clear - the vectors of a picture that states UMV off wrap whatever came before); INTER / INTER+Q and INTER4V / INTER4V+Q macroblock types throughout; every sum of four vectors -128..124 per component in three decompositions; every neighbour configuration - picture shapes 4x3, 1x3, 3x1, 1x1, 3x3(33x33) macroblocks x every target position x {inter, intra, not coded}^3 neighbours x six vector permutations (each neighbour in turn the median) x one-/four-vector neighbours x three target types. Oracle: C03 model, zero residual, exact equality of all three planes (the chroma planes decide the sixteenth-position rounding). Non-trivial = predictor and differential both non-zero / every sum / every configuration; plus tape-generated random vector fields in all three stream forms.",
             assumptions: vec!["the macroblock under test sits where vectors up to +-16 stay inside the picture for the enumerated pairs, so no two vectors alias through edge clamping".into()],
             exhaustive,
             extra: Map::new(),
